@@ -21,7 +21,9 @@ IsEvent(e) == l <= Len(Tr) /\ Tr[l].e = e /\ l' = l + 1
 
 Refs2(x) == 2 + x.sub
 \* what a sound observation of p looks like, whatever the counts are
-Sound(o) == o.ty = FTDIR /\ o.lsr = "ok" /\ o.bad = 0 /\ o.dot = o.dir /\ o.sub = o.ddsub
+\* (ddsub = -1: the sweep over the inode table was left to the next full observation -- the one of the following e2fsck -fn line)
+Sound(o) == o.ty = FTDIR /\ o.lsr = "ok" /\ o.bad = 0 /\ o.dot = o.dir /\ (o.ddsub = -1 \/ o.sub = o.ddsub)
+Full(o) == o.ddsub # -1
 \* the stored count is right (Dir!Consistent, restricted to p), in e2fsck's reading of "saturated"
 CountOK(x) == /\ \/ x.links = WantOf(FTDIR, Refs2(x))
                  \/ (SaturatedOf(FTDIR, x.links, Refs2(x), x.sat) /\ (Refs2(x) > LinkMax \/ x.idx = 1))
@@ -32,7 +34,7 @@ Obs(o, sat) == [links |-> o.links, sub |-> o.sub, other |-> o.other, fi |-> o.fi
 TReset ==
    /\ IsEvent("reset")
    /\ LET o == Tr[l].nl IN
-      /\ Holds(Sound(o))
+      /\ Holds(Sound(o) /\ Full(o))
       /\ Holds(o.dirnlink = (IF DirNlink THEN 1 ELSE 0))
       /\ c' = Obs(o, o.links = 1)
       /\ Holds(CountOK(Obs(o, o.links = 1)))            \* the prepared directory is consistent
@@ -68,7 +70,7 @@ TFsckN ==
    /\ LET ln == Tr[l] IN
       /\ Holds((ln.rc = 0) <=> CountOK(c))
       /\ ln.rc \in {0, 4}
-      /\ Holds(Sound(ln.nl)) /\ Obs(ln.nl, c.sat) = c
+      /\ Holds(Sound(ln.nl) /\ Full(ln.nl)) /\ Obs(ln.nl, c.sat) = c
    /\ UNCHANGED c
 
 TraceInit == l = 1 /\ c = [links |-> 0, sub |-> 0, other |-> 0, fi |-> 0, fb |-> 0, ndirs |-> 0, idx |-> 0, dir |-> 0, sat |-> FALSE]
